@@ -1684,14 +1684,19 @@ class Frame:
             params = [a.arg for a in fi.node.args.posonlyargs + fi.node.args.args]
             offset = len(args) - len(node.args)
             rebound = {x.id for n in ast.walk(fi.node) for x in ast.walk(n) if isinstance(x, ast.Name) and isinstance(x.ctx, (ast.Store, ast.Del))}
+            pairs = []
             for j, a in enumerate(node.args):
                 if isinstance(a, ast.Name) and a.id in st.env and 0 <= offset + j < len(params) and offset + j < len(args):
-                    p = params[offset + j]
-                    if p in rebound:
-                        continue
-                    newv, oldv = final.env.get(p), args[offset + j]
-                    if isinstance(newv, Poly) and isinstance(oldv, Poly) and newv.key() != oldv.key() and "upd" in repr(newv.key())[:4000]:
-                        st.env[a.id] = newv
+                    pairs.append((a.id, params[offset + j], args[offset + j]))
+            for kw in node.keywords:
+                if kw.arg and isinstance(kw.value, ast.Name) and kw.value.id in st.env and kw.arg in params and kw.arg in kwargs:
+                    pairs.append((kw.value.id, kw.arg, kwargs[kw.arg]))
+            for local, p, oldv in pairs:
+                if p in rebound:
+                    continue
+                newv = final.env.get(p)
+                if isinstance(newv, Poly) and isinstance(oldv, Poly) and newv.key() != oldv.key() and "upd" in repr(newv.key())[:4000]:
+                    st.env[local] = newv
         return res
 
     def call_method(self, recv, f, args, kwargs, st, node):
